@@ -400,3 +400,38 @@ def finding_signature(f):
     if f.tag == "outcome" and isinstance(f.detail, dict):
         sig["got"] = f.detail.get("got")
     return sig
+
+
+def seq_witness(world, ops, findings, spec, docspec=None, upto=None):
+    """A replayable description of a sequential run."""
+    return {"engine": "seq", "cfg": world.cfg, "contents": spec, "docs": docspec or {},
+            "pids": sorted(world.pids), "fmts": sorted(world.fmts, key=repr),
+            "ops": list(ops if upto is None else ops[:upto]),
+            "findings": [f.to_json() for f in findings[:4]]}
+
+
+def seq_replay(witness, relevant, signature=finding_signature):
+    """Re-execute a recorded sequence against the current tree and print every step."""
+    from .common import new_scratch, rmtree
+    from .gen import make_content
+    from .runner import ShardResult
+    res = ShardResult()
+    scratch = new_scratch("replay")
+    try:
+        contents = {k: make_content(v["cseed"], v["size"]) for k, v in witness["contents"].items()}
+        docs = {k: make_content(v["cseed"], v["size"]) for k, v in witness.get("docs", {}).items()}
+        cfg = witness.get("cfg", {})
+        w = World(scratch, contents, docs, pids=witness.get("pids", ()),
+                  fmts=witness.get("fmts", (None,)), **cfg)
+        before = None
+        for i, op in enumerate(witness["ops"]):
+            out, findings, _b, before = w.step(op, i, before=before)
+            print(f"  step {i}: {op} -> {out.brief()} {out.msg or ''}")
+            for f in findings:
+                print(f"     finding {f.tag}: {jsonable(f.detail)}")
+                if relevant(f):
+                    res.violation(signature(f), witness)
+        res.evaluations = 1
+    finally:
+        rmtree(scratch)
+    return res
